@@ -97,6 +97,71 @@ def well_formed(cf, pics_in, out, n_expected):
     return None
 
 
+def retransformed(rng, cf):
+    """the same codec with ANOTHER transform (2D / horizontal-only depth split - mostly with the same number of
+    levels -, sometimes other filters and slice counts) for later pictures of the same sequence"""
+    from vc2_conformance.codec_features import CodecFeatures
+    from vc2_data_tables import WaveletFilters, QUANTISATION_MATRICES
+
+    cf2 = CodecFeatures(cf)
+    total = cf["dwt_depth"] + cf["dwt_depth_ho"]
+    splits = [(d, total - d) for d in range(total + 1) if (d, total - d) != (cf["dwt_depth"], cf["dwt_depth_ho"])]
+    if splits and rng.random() < 0.7:
+        d, dho = rng.choice(splits)
+    else:
+        d, dho = rng.choice([0, 1, 2, 3]), rng.choice([0, 0, 1, 2])
+    cf2["dwt_depth"], cf2["dwt_depth_ho"] = d, dho
+    if rng.random() < 0.3:
+        cf2["wavelet_index"] = cf2["wavelet_index_ho"] = WaveletFilters(rng.randrange(7))
+    if rng.random() < 0.2:
+        cf2["slices_x"], cf2["slices_y"] = rng.randrange(1, 5), rng.randrange(1, 4)
+        if cf["picture_bytes"] is not None:
+            cf2["picture_bytes"] = cf["picture_bytes"] + 40 * cf2["slices_x"] * cf2["slices_y"]
+    qm = None
+    if (cf2["wavelet_index"], cf2["wavelet_index_ho"], d, dho) not in QUANTISATION_MATRICES:
+        qm = {0: {"LL": 1}} if dho == 0 else dict([(0, {"L": 1})] + [(lv, {"H": rng.randrange(0, 4)}) for lv in range(1, dho + 1)])
+        for lv in range(dho + 1, d + dho + 1):
+            qm[lv] = {"HL": rng.randrange(0, 4), "LH": rng.randrange(0, 4), "HH": rng.randrange(0, 6)}
+    cf2["quantization_matrix"] = qm
+    return cf2
+
+
+def encode_spliced(cf, pics, cf2, pics2):
+    """ONE sequence: the pictures of `pics` coded with cf followed by `pics2` coded with cf2 (same video format, other
+    transform parameters) - transform parameters are per picture in VC-2"""
+    from vc2_conformance.encoder import make_sequence
+    from vc2_conformance.bitstream import Stream, autofill_and_serialise_stream
+    from vc2_data_tables import ParseCodes
+
+    a = make_sequence(cf, copy.deepcopy(pics))
+    b = make_sequence(cf2, copy.deepcopy(pics2))
+    eos = int(ParseCodes.end_of_sequence)
+    tail = [du for du in b["data_units"] if "sequence_header" not in du]
+    a["data_units"] = [du for du in a["data_units"] if du["parse_info"]["parse_code"] != eos] + tail
+    f = BytesIO()
+    autofill_and_serialise_stream(f, Stream(sequences=[a]))
+    return f.getvalue()
+
+
+def violates_spliced(rng, cf, pics, cf2, pics2):
+    data = encode_spliced(cf, pics, cf2, pics2)
+    verdict, out = G.decode(data)
+    if verdict != "OK":
+        return "validator rejects a sequence whose later pictures use other transform parameters: %s" % verdict, "rejected"
+    return well_formed(cf, pics + pics2, out, len(pics) + len(pics2)), "spliced"
+
+
+def rand_spliced(rng):
+    cf = G.rand_config(rng)
+    pics = G.rand_pictures(rng, cf)
+    cf2 = retransformed(rng, cf)
+    pics2 = G.rand_pictures(rng, cf2, n=rng.choice([1, 2]))
+    last = pics[-1].get("pic_num", len(pics) - 1)
+    for i, p in enumerate(pics2):
+        p["pic_num"] = (last + 1 + i) % 2 ** 32
+    return cf, pics, cf2, pics2
+
+
 def violates(rng, cf, pics, extreme):
     data, seq = G.encode(cf, pics)
     if extreme:
@@ -123,7 +188,7 @@ class Prop(object):
     status = "partial"
     rule = ("random small configurations (profiles, wavelet pairs, asymmetric depths, slices, fragments, subsampling, fields, depths 1-16; component sizes that are not multiples of the "
             "transform scale; square components) encoded by the REAL encoder; half of the HQ streams have their slice payloads re-packed with extreme / negative / random coefficients "
-            "(up to 2^40) and recomputed length fields; every stream the REAL validator accepts must output one picture per picture / completed fragmented picture with exact component "
+            "(up to 2^40) and recomputed length fields; sequences whose later pictures are coded with OTHER transform parameters (depth split, filters, slice counts); every stream the REAL validator accepts must output one picture per picture / completed fragmented picture with exact component "
             "shapes, integer samples in [0, 2^depth - 1] and the coded picture numbers")
     trusted = ["models Picture.lean (clip/offset), Wavelet.lean (C11 shapes), Stream.lean (C01 output count) with their correspondences; the composition inside the real decoder is validated by this check"]
     assumptions = ["only streams the validator accepts are in scope"]
@@ -144,13 +209,39 @@ class Prop(object):
                 ctx.distinct.add(hash(json.dumps(G.describe(cf), sort_keys=True, default=str) + kind))
             if why and not self._bad:
                 self._bad = {"config": G.describe(cf), "pictures": pics, "extreme": extreme, "why": why}
+        # sequences whose later pictures use OTHER transform parameters (transform parameters are per picture)
+        ctx.corr_names.append("REAL validator output on sequences whose pictures use different transform parameters")
+        rng = ctx.rng("spliced")
+        for _ in range(ctx.n(250, 6000)):
+            why = self._spliced(ctx, rng)
+            if why and not self._bad:
+                self._bad = why
+
+    def _spliced(self, ctx, rng):
+        cf, pics, cf2, pics2 = rand_spliced(rng)
+        try:
+            why, kind = violates_spliced(rng, cf, pics, cf2, pics2)
+        except Exception as e:  # noqa
+            why, kind = "exception %s: %s" % (type(e).__name__, str(e)[:160]), "error"
+        if ctx is not None:
+            ctx.evaluations += 1
+            ctx.count("e2e:%s" % kind)
+            ctx.distinct.add(hash(json.dumps([G.describe(cf), G.describe(cf2)], sort_keys=True, default=str)))
+        if why:
+            return {"config": G.describe(cf), "pictures": pics, "config2": G.describe(cf2), "pictures2": pics2, "why": why}
+        return None
 
     def findings(self, ctx):
         return [self._bad] if self._bad else []
 
     def search(self, ctx):
         rng = ctx.rng("search")
-        for _ in range(ctx.n(2500, 40000)):
+        for i in range(ctx.n(2500, 40000)):
+            if i % 4 == 3:
+                bad = self._spliced(None, rng)
+                if bad:
+                    return bad
+                continue
             cf, pics, extreme = rand_case(rng)
             try:
                 why, kind = violates(rng, cf, pics, False)
@@ -169,7 +260,10 @@ class Prop(object):
         if not fi:
             print("replay names broken obligations only:", r.get("broken_obligations"))
             return 1
-        why, kind = violates(random.Random(0), G.from_description(fi["config"]), fi["pictures"], fi.get("extreme", False))
+        if "config2" in fi:
+            why, kind = violates_spliced(random.Random(0), G.from_description(fi["config"]), fi["pictures"], G.from_description(fi["config2"]), fi["pictures2"])
+        else:
+            why, kind = violates(random.Random(0), G.from_description(fi["config"]), fi["pictures"], fi.get("extreme", False))
         print("replay ->", why or "property holds")
         return 1 if why else 0
 
